@@ -1251,6 +1251,7 @@ func (ex *Exec) sprintf(format *StrV, args SliceV) (*StrV, Value) {
 	var sb strings.Builder
 	ai := 0
 	opaque := false
+	var pre *StrV // symbolic prefix accumulated so far
 	for i := 0; i < len(f); i++ {
 		if f[i] != '%' {
 			sb.WriteByte(f[i])
@@ -1286,6 +1287,17 @@ func (ex *Exec) sprintf(format *StrV, args SliceV) (*StrV, Value) {
 		}
 		s, ok := ex.fmtArg(v, verb)
 		if !ok {
+			// a symbolic string under %s / %v is spliced in as it is
+			if iv, isI := v.(IfaceV); isI && (verb == 's' || verb == 'v') {
+				if sv, isS := iv.val.(*StrV); isS && !sv.opaque {
+					if pre == nil {
+						pre = concStr("")
+					}
+					pre = ex.strConcat(ex.strConcat(pre, concStr(sb.String())), sv)
+					sb.Reset()
+					continue
+				}
+			}
 			opaque = true
 			sb.WriteString("<?>")
 		} else {
@@ -1294,6 +1306,9 @@ func (ex *Exec) sprintf(format *StrV, args SliceV) (*StrV, Value) {
 	}
 	if opaque {
 		ex.noteStub("fmt: operand rendered opaquely")
+	}
+	if pre != nil {
+		return ex.strConcat(pre, concStr(sb.String())), wrapped
 	}
 	return concStr(sb.String()), wrapped
 }
